@@ -390,6 +390,26 @@ class Index:
         r = self.resolve_name(m, expr)
         return r if isinstance(r, ClassInfo) else None
 
+    def name_bound_in_module(self, m: ModuleInfo, name: str, _depth=0) -> Optional[bool]:
+        """True when `name` is bound at module level of m (definition, assignment, import - also of
+        external packages - or through a star import); None when a star import of a module outside
+        the tree makes it unknowable; False otherwise."""
+        if name in m.imports or name in m.consts or name in m.functions or name in m.classes or name in m.const_all:
+            return True
+        unknown = False
+        if _depth < 6:
+            for sm in m.star_imports:
+                mod = self.modules.get(sm)
+                if mod is None:
+                    unknown = True
+                    continue
+                r = self.name_bound_in_module(mod, name, _depth + 1)
+                if r:
+                    return True
+                if r is None:
+                    unknown = True
+        return None if unknown else False
+
     # ------------------------------------------------------------------ anchors
     def module(self, name: str) -> ModuleInfo:
         m = self.modules.get(name)
